@@ -608,6 +608,8 @@ private:
                                                          bool wrap,
                                                          const A& allocator);
 
+  static void check_num_longs(uint32_t num_longs);
+
   // internal query/update methods
   void internal_update(uint64_t h0, uint64_t h1);
   bool internal_query_and_update(uint64_t h0, uint64_t h1);
